@@ -45,7 +45,7 @@ NA_TOKENS = ["None", "nan", "npnan", "nat"]
 def generate(rng, tier):
     kind = rng.choice(KINDS)
     n = rng.choice([0, 1, 2, 3, rng.randint(3, 12), rng.randint(3, 12)])
-    flavour = rng.choice(["python", "python", "numpy"]) if kind in ("bool", "int", "float", "str", "date", "datetime") else "python"
+    flavour = rng.choice(["python", "python", "numpy"]) if kind in ("bool", "int", "float", "str", "date", "datetime", "timedelta") else "python"
     container = rng.choice(["list", "list", "tuple", "generator", "ndarray_object"])
     na_pat = rng.choice(["none", "none", "some", "first", "last", "all"])
     if kind == "mixed":
@@ -90,6 +90,7 @@ def _np_scalar(kind, v):
     if kind == "str": return np.str_(v)
     if kind == "date": return np.datetime64(v.isoformat(), "D")
     if kind == "datetime": return np.datetime64(v.isoformat(), "us")
+    if kind == "timedelta": return np.timedelta64(v)
     return v
 
 def execute(case):
@@ -157,7 +158,7 @@ def execute(case):
     if judged_values and any(marks) and not dtype:
         fam = canon.dtype_kind(v)
         want = {"bool": ["object"], "int": ["float"], "float": ["float"], "str": ["string", "ustr"], "date": ["date", "datetime"],
-                "datetime": ["datetime"], "timedelta": ["object", "timedelta"], "bytes": ["object"], "object": ["object"]}[kind]
+                "datetime": ["datetime"], "timedelta": ["timedelta"] if flavour == "numpy" else ["object", "timedelta"], "bytes": ["object"], "object": ["object"]}[kind]
         if all(marks):
             want = want + ["object", "float", "datetime", "date"]
         if fam not in want:
